@@ -4,18 +4,18 @@ ASSUMPTIONS = ["path storage functions bound to the flat path model PM (include/
                "mpt_log is an empty stub"]
 REN = {"mpt_path_addchar": "verif_pm_addchar", "mpt_path_delchar": "verif_pm_delchar", "mpt_path_valid": "verif_pm_valid",
        "mpt_path_add": "verif_pm_add", "mpt_path_invalidate": "verif_pm_invalidate"}
-U = [("mptcore/parse/%s.c" % f, REN) for f in "parse_format_pre parse_option parse_data parse_getchar".split()] + [
+U = [("mptcore/parse/%s.c" % f, REN) for f in "parse_data parse_getchar".split()] + [
     "mptcore/parse/%s.c" % f for f in "parse_nextvis parse_endline parse_ncheck parse_accept".split()]
 COMMON = dict(units=U, fp=[(r"getc", ["h_getc"])], stubs=["libc.c", "pathmodel.c"], flags=["--max-field-sensitivity-array-size", "100"])
 
 
 def queries(tier):
     qs = []
-    variants = [(0, 0, 1)] if tier == "quick" else [(p, c, 3) for p in (0, 1, 2) for c in (0, 1)]
-    for (pre, com, vl) in variants:
-        qs.append(Q("format_pre_readback_p%d_c%d" % (pre, com), "C08/pre.c", harness_defines=dict({"MODE": 2, "PRELINE": pre, "COMMENT": com, "VLMAX": vl}, **({"LEAD": 0, "NLMAX": 1, "AFTERMAX": 1} if tier == "quick" else {})),
-                    unwind_default=10 if tier == "quick" else 16, unwind={"memchr": 6, "verif_pm_add": 34, "blanks": 3, "harness": 4},
-                    bounds="one option line from symbolic parts: %s, 0..1 leading blank, name of 1..2 chars {a,b}, 0..2 blanks (space/tab) on each side of '=', value of 0..%d chars {a,b,space} (no outer blanks), 0..1 trailing blank%s" % (
-                        {0: "no preceding line", 1: "preceding blank line", 2: "preceding comment line"}[pre], vl, ", trailing comment" if com else ""),
-                    outside="quoted values, sections, nesting, the other two styles, longer values, tree building (node_append)", timeout=600, **COMMON))
+    n = 6 if tier == "quick" else 8
+    for (nm, d, bd) in (("value_plain", {"N": n}, "%d symbolic characters over {a, b, space, tab, newline, #} after the option name" % n),
+                        ("value_quoted", {"N": n - 1, "QUOTED": 1}, "fully quoted value of 0..%d characters over {a, space, #}" % (n - 1))):
+        qs.append(Q(nm, "C08/data.c", harness_defines=d, unwind_default=n + 5, unwind={"memchr": 6, "verif_pm_add": 34},
+                    bounds="one mpt_parse_data call: " + bd,
+                    outside="option/section names and nesting (format layer: C08 query), partially quoted values, escaped quotes, the enc/sep styles, values beyond %d characters, tree building (node_append)" % n,
+                    timeout=600, **COMMON))
     return qs
